@@ -391,6 +391,10 @@ pub fn bang(r: &mut Runner, line: &str) {
             });
         }
         "!scale" => crate::scale::bang_scale(r, &t),
+        "!reuse" => crate::history::bang_reuse(r, &t),
+        "!conc" => crate::history::bang_conc(r, &t),
+        "!interleave" => crate::history::bang_interleave(r, &t),
+        "!authistory" => crate::history::bang_authistory(r, &t),
         "!cli" => {
             // !cli <set|map|union> <prev> <rows>: the sorted CLI paths (`fst set --sorted`,
             // `fst map --sorted`, `fst union`) write the same bytes as an in-memory library
@@ -460,10 +464,10 @@ pub fn bang(r: &mut Runner, line: &str) {
             }
             let got = std::fs::read(&outp).unwrap_or_default();
             let _ = std::fs::remove_file(&outp);
-            r.check(out.status.success(), || format!("C07 C15 `fst {}` exited with {:?}: {}", what, out.status.code(), String::from_utf8_lossy(&out.stderr)));
+            r.check(out.status.success(), || format!("C07 C15 C08 `fst {}` exited with {:?}: {}", what, out.status.code(), String::from_utf8_lossy(&out.stderr)));
             r.check(got == want, || {
                 format!(
-                    "C07 C15 `fst {}`{} left {} bytes at the output path, the in-memory build of the same data has {} bytes (equal prefix: {})",
+                    "C07 C15 C08 `fst {}`{} left {} bytes at the output path, the in-memory build of the same data has {} bytes (equal prefix: {})",
                     what,
                     if prev > 0 { " --force over an existing file" } else { "" },
                     got.len(),
@@ -481,6 +485,175 @@ pub fn bang(r: &mut Runner, line: &str) {
             r.check(p2 as f64 <= 1.25 * p1 as f64 + 65536.0, || {
                 format!("C13 builder heap grows with the number of keys through {}: peak({})={} peak({})={}", fe, n1, p1, n2, p2)
             });
+        }
+        "!clirerun" => {
+            // !clirerun <set|map>: the unsorted command run again and again in the same temp
+            // directory with --keep-tmp-dir and --force, on a large and then on a smaller input:
+            // nothing of an earlier run may show in a later result
+            let what = t[1];
+            let bin = std::env::var("FST_BIN").expect("FST_BIN");
+            let base = std::env::var("FST_TMP").unwrap_or_else(|_| "/verif/target/tmp".into());
+            let dir = format!("{}/rerun-{}-{}", base, std::process::id(), r.line_no);
+            let _ = std::fs::remove_dir_all(&dir);
+            std::fs::create_dir_all(&dir).unwrap();
+            let inp = format!("{}/in.txt", dir);
+            let outp = format!("{}/out.fst", dir);
+            let mut rng = Rng::new(r.line_no as u64 + 5);
+            let inputs: Vec<Vec<(Vec<u8>, u64)>> = vec![
+                (0..400).map(|_| (format!("key{:04}", rng.below(300)).into_bytes(), 1 + rng.below(9))).collect(),
+                (0..30).map(|_| (format!("key{:04}", rng.below(40)).into_bytes(), 1 + rng.below(9))).collect(),
+                (0..30).map(|_| (format!("k{:02}", rng.below(40)).into_bytes(), 1 + rng.below(9))).collect(),
+                (0..400).map(|_| (format!("key{:04}", rng.below(300)).into_bytes(), 1 + rng.below(9))).collect(),
+                vec![(b"z".to_vec(), 3)],
+            ];
+            for (round, rows) in inputs.iter().enumerate() {
+                let mut text: Vec<u8> = vec![];
+                for (k, v) in rows {
+                    text.extend_from_slice(k);
+                    if what == "map" {
+                        text.extend_from_slice(format!(",{}", v).as_bytes());
+                    }
+                    text.push(b'\n');
+                }
+                std::fs::write(&inp, &text).unwrap();
+                for again in 0..2 {
+                    let out = std::process::Command::new(&bin)
+                        .arg(what)
+                        .arg(&inp)
+                        .arg(&outp)
+                        .args(&["--force", "--keep-tmp-dir", "--batch-size", "7", "--fd-limit", "3", "--threads", "2"])
+                        .env("TMPDIR", &dir)
+                        .output()
+                        .unwrap();
+                    let label = format!("`fst {}` unsorted, run #{}{} in the same temp directory with --keep-tmp-dir --force", what, round + 1, if again == 1 { " (repeated)" } else { "" });
+                    if !out.status.success() {
+                        r.fail(format!("C19 {} exited with {:?}: {}", label, out.status.code(), String::from_utf8_lossy(&out.stderr).chars().take(300).collect::<String>()));
+                        continue;
+                    }
+                    let mut want: BTreeMap<Vec<u8>, u64> = BTreeMap::new();
+                    for (k, v) in rows {
+                        *want.entry(k.clone()).or_insert(0) += if what == "map" { *v } else { 0 };
+                    }
+                    let wantv: Vec<(Vec<u8>, u64)> = want.into_iter().collect();
+                    match std::fs::read(&outp).ok().and_then(|b| raw::Fst::new(b).ok()) {
+                        None => r.fail(format!("C19 {}: the output does not open", label)),
+                        Some(f) => {
+                            let got = f.stream().into_byte_vec();
+                            r.check(got == wantv, || format!("C19 {}: {} keys, want {} ({})", label, got.len(), wantv.len(), if got.len() == wantv.len() { "values or keys differ" } else { "counts differ" }));
+                            r.check(f.verify().is_ok(), || format!("C19 {}: output fails verify()", label));
+                        }
+                    }
+                }
+            }
+            let _ = std::fs::remove_dir_all(&dir);
+        }
+        "!memhistory" => {
+            // !memhistory <n>: what earlier traversals leave behind. (1) a finished stream polled
+            // again and again, two streams in alternation with one ending early: the live heap
+            // afterwards is what it was before; (2) many small range queries first: the peak of a
+            // full traversal (and of a union) afterwards is what it was before them
+            let n: u64 = t[1].parse().unwrap();
+            let f = raw::Fst::from_iter_map((0..n).map(|i| (mem_key(i), i))).unwrap();
+            let g = raw::Fst::from_iter_map((0..n).filter(|i| i % 3 != 1).map(|i| (mem_key(i), i))).unwrap();
+            let full_peak = |f: &raw::Fst<Vec<u8>>, g: &raw::Fst<Vec<u8>>| -> (usize, usize) {
+                let base = reset_peak();
+                let mut s = f.stream();
+                let mut c = 0u64;
+                while let Some(_) = s.next() {
+                    c += 1;
+                }
+                drop(s);
+                let p1 = peak() - base;
+                let base = reset_peak();
+                let mut u = raw::OpBuilder::new().add(f).add(g).union();
+                while let Some(_) = u.next() {
+                    c += 1;
+                }
+                drop(u);
+                let _ = c;
+                (p1, peak() - base)
+            };
+            let (s0, u0) = full_peak(&f, &g);
+            let live0 = live();
+            {
+                // polls after the end; alternation with an early end
+                let mut a = f.range().lt(mem_key(5)).into_stream();
+                let mut b = f.stream();
+                let mut i = 0u64;
+                while b.next().is_some() {
+                    let _ = a.next(); // finished after 5 items, polled n more times
+                    i += 1;
+                }
+                for _ in 0..(10 * n).min(2_000_000) {
+                    let _ = b.next();
+                }
+                let _ = i;
+            }
+            let live1 = live();
+            r.check(live1 <= live0 + 16384, || format!("C14 live heap after polling finished streams of a {}-key FST grew from {} to {} bytes", n, live0, live1));
+            // many point ranges
+            for i in 0..(n / 10) {
+                let k = mem_key(i * 10);
+                let mut s = f.range().ge(&k).le(&k).into_stream();
+                let _ = s.next();
+                let _ = s.next();
+            }
+            let (s1, u1) = full_peak(&f, &g);
+            r.notes.push(format!("memhistory n={} stream peak {}→{} union peak {}→{} live {}→{}", n, s0, s1, u0, u1, live0, live1));
+            r.check(s1 as f64 <= 1.25 * s0 as f64 + 16384.0, || format!("C14 the peak heap of a full stream over {} keys is {} bytes after {} small range queries, {} before them", n, s1, n / 10, s0));
+            r.check(u1 as f64 <= 1.25 * u0 as f64 + 16384.0, || format!("C14 the peak heap of a union over {} keys is {} bytes after {} small range queries, {} before them", n, u1, n / 10, u0));
+            let live2 = live();
+            r.check(live2 <= live0 + 16384, || format!("C14 live heap after {} small range queries grew from {} to {} bytes", n / 10, live0, live2));
+        }
+        "!meminterleave" => {
+            // !meminterleave <n1> <n2>: two builders alive on one thread and fed in alternation; a builder
+            // created after a big one has finished in this process
+            let (n1, n2): (u64, u64) = (t[1].parse().unwrap(), t[2].parse().unwrap());
+            let two = |n: u64| -> usize {
+                let base = reset_peak();
+                let mut a = raw::Builder::new_type(Discard { n: 0, cap: 0 }, 0).unwrap();
+                let mut b = raw::Builder::new_type(Discard { n: 0, cap: 0 }, 0).unwrap();
+                for i in 0..n {
+                    a.insert(mem_key(i), i).unwrap();
+                    b.add(mem_key_prefix(i)).unwrap();
+                }
+                let p = peak() - base;
+                a.finish().unwrap();
+                b.finish().unwrap();
+                p
+            };
+            let (p1, p2) = (two(n1), two(n2));
+            r.notes.push(format!("meminterleave n1={} peak1={} n2={} peak2={}", n1, p1, n2, p2));
+            r.check(p2 as f64 <= 1.25 * p1 as f64 + 65536.0, || format!("C13 two builders fed in alternation: heap grows with the number of keys: peak({})={} peak({})={}", n1, p1, n2, p2));
+            // a small build before and after a big one
+            let (small0, _) = build_peak(200_000, true, "fixed", 0);
+            let _ = build_peak(n2, true, "fixed", 0);
+            let (small1, _) = build_peak(200_000, true, "fixed", 0);
+            r.notes.push(format!("meminterleave small build before a {}-key build: {} bytes, after it: {} bytes", n2, small0, small1));
+            r.check(small1 as f64 <= 1.25 * small0 as f64 + 65536.0, || format!("C13 the same 200 000-key build needs {} bytes before and {} bytes after a {}-key build in the same process", small0, small1, n2));
+            // created here, fed and finished on another thread
+            let base = reset_peak();
+            let mut b = raw::Builder::new_type(Discard { n: 0, cap: 0 }, 0).unwrap();
+            b.insert(mem_key(0), 0).unwrap();
+            let h = std::thread::spawn(move || {
+                for i in 1..n1 {
+                    b.insert(mem_key(i), i).unwrap();
+                }
+                let p = peak();
+                b.finish().unwrap();
+                p
+            });
+            let pm = h.join().unwrap() - base;
+            let (alone, _) = build_peak(n1, true, "fixed", 0);
+            r.check(pm as f64 <= 1.25 * alone as f64 + 65536.0, || format!("C13 a builder created on one thread and fed on another holds {} bytes for {} keys, {} when it stays on its thread", pm, n1, alone));
+            let mut c = raw::Builder::new_type(Discard { n: 0, cap: 0 }, 0).unwrap();
+            let base = reset_peak();
+            for i in 0..n1 {
+                c.insert(mem_key(i), i).unwrap();
+            }
+            let after_move = peak() - base;
+            c.finish().unwrap();
+            r.check(after_move as f64 <= 1.25 * alone as f64 + 65536.0, || format!("C13 a builder created after another one was moved to a different thread holds {} bytes for {} keys, normally {}", after_move, n1, alone));
         }
         "!memstream" => {
             // !memstream <n1> <n2> <k>
